@@ -127,7 +127,7 @@ chk('C10', 'model_checking',
     'breadth-first search over sequences of a 35-55 operation alphabet on small generated DWARF sets with deduplication on the abstract '
     'cache state (states restored by replaying the shortest path on a fresh object; replay determinism checked): every operation applied '
     'to every distinct state up to the bound; the tiny files close their frontier. (b) Random histories of 60-400 operations on corpus '
-    'binaries and generated files at the DWARF and the ELF level (every other ELF history re-uses the section and segment objects it was handed, '
+    'binaries and generated files at the DWARF and the ELF level (every other ELF history re-uses the section and segment objects it was handed, single-object histories send 6-30 calls to one section object of each class in turn, walks are interrupted by other uses of the stream and judged against the undisturbed walk, '
     'so that what an object remembers from an earlier walk meets the next query). Streams are repositioned before every operation; cache invariants '
     '(sorted, duplicate-free, parallel unit/entry caches; cached parent/terminator links vs ground truth; section-name map) are asserted '
     'after every operation.',
